@@ -115,4 +115,5 @@ package payload
 //@ func NewDecoder
 //@   before call path/filepath.IsLocal assert checks-the-decoded-names: arg0 == part.Name || arg0 == part.Renamed
 //@   on return assert names-are-local: r0 != nil ==> forall(k, 0, len(binReader.meta), local(binReader.meta[k].Name) && (binReader.meta[k].Renamed == "" || local(binReader.meta[k].Renamed))) && as(r0, *Decoder) == binReader
-//@   loop 1 invariant -1 <= rangeindex && rangeindex < len(binReader.meta) && forall(k, 0, rangeindex+1, local(binReader.meta[k].Name) && (binReader.meta[k].Renamed == "" || local(binReader.meta[k].Renamed)))
+//@   on return assert names-are-inside: r0 != nil ==> forall(k, 0, len(binReader.meta), pathclean(binReader.meta[k].Name) != "." && (binReader.meta[k].Renamed == "" || pathclean(binReader.meta[k].Renamed) != "."))
+//@   loop 1 invariant -1 <= rangeindex && rangeindex < len(binReader.meta) && forall(k, 0, rangeindex+1, local(binReader.meta[k].Name) && (binReader.meta[k].Renamed == "" || local(binReader.meta[k].Renamed)) && pathclean(binReader.meta[k].Name) != "." && (binReader.meta[k].Renamed == "" || pathclean(binReader.meta[k].Renamed) != "."))
